@@ -106,7 +106,12 @@ func (p *Prog) NewExec(pol func(*ssa.Function) Policy) *Exec {
 	if pol == nil {
 		pol = p.DefaultPolicy
 	}
-	return &Exec{fset: p.Fset, dir: p.Dir, Policy: pol, MaxDepth: 8, MaxPaths: 200000}
+	x := &Exec{fset: p.Fset, dir: p.Dir, Policy: pol, MaxDepth: 8, MaxPaths: 200000}
+	if p.we == nil {
+		p.we = newWE(p)
+	}
+	x.FieldsWritten = p.we.FieldsWritten
+	return x
 }
 
 // RadixPolicy: for rules that look inside the origin tree's operations; the
